@@ -17,7 +17,9 @@ DgC03 == {D(1, 0, TRUE, 1, "1"), D(1, 1, TRUE, 1, "1"), D(1, 3, TRUE, 1, "1"),
           D(3, 3, FALSE, 1, "1"), D(2, 2, TRUE, 3, "1")}
 RpC03 == {R(1, "1"), R(4, "1000")}
 \* C14: one or two clients, DNS and non-DNS destinations, replies from port 53 and from elsewhere
-DgC14 == {D(1, 1, TRUE, 1, "1"), D(1, 1, TRUE, 2, "1"), D(2, 2, TRUE, 2, "1")}
+\* (destination 3 in this family: allowed by the validator, but the outbound socket's WriteTo to it fails)
+DgC14 == {D(1, 1, TRUE, 1, "1"), D(1, 1, TRUE, 2, "1"), D(2, 2, TRUE, 2, "1"), D(1, 1, TRUE, 3, "1")}
+MidC14 == {R(2, "1")}
 RpC14 == {R(1, "1"), R(2, "1")}
 \* C16/C18: sizes at the boundaries, failing datagrams on live associations, every reply class
 DgC16 == {D(1, 1, TRUE, 1, "0"), D(1, 1, TRUE, 1, "max"), D(1, 2, TRUE, 1, "1"), D(1, 1, FALSE, 1, "1"),
